@@ -255,9 +255,13 @@ func extractTermsAux(ctx *Context, x interface{}, terms StringSet, depth int) {
 func (s *IndexedState) Add(ctx *Context, id string, x Map) (string, error) {
 	Log(DEBUG, ctx, "IndexedState.Add", "state", s.Name, "factx", x, "id", id)
 	delete(s.cachedRules, id)
-	s.slock(ctx, false)
-	id, err := s.add(ctx, id, x)
-	s.sunlock(ctx, false)
+	id, err := func() (string, error) {
+		// Unlock even if something below panics; otherwise the
+		// location is blocked for good.
+		s.slock(ctx, false)
+		defer s.sunlock(ctx, false)
+		return s.add(ctx, id, x)
+	}()
 
 	if nil != err {
 		return "", err
@@ -349,12 +353,20 @@ func GetRulePatterns(ctx *Context, rule map[string]interface{}) []map[string]int
 	if !have {
 		return nil
 	}
-	when := eventPattern.(map[string]interface{})
+	when, ok := eventPattern.(map[string]interface{})
+	if !ok {
+		// Not a pattern, so nothing to index (and nothing to match).
+		return nil
+	}
 	events := make([]map[string]interface{}, 0, 1)
 	p, fromQuery := when["pattern"]
 	// ToDo: Better type processing.
 	if fromQuery {
-		events = append(events, p.(map[string]interface{}))
+		pattern, ok := p.(map[string]interface{})
+		if !ok {
+			return nil
+		}
+		events = append(events, pattern)
 	} else {
 		events = append(events, when)
 	}
